@@ -105,3 +105,5 @@ impl WriteHandler {
     { unimplemented!() }
 }
 //@trusted ffi::WriteHandler callbacks: C function pointers, opaque (any WriteResult or None when the callback is not set)
+pub struct AuthorizationHandler { pub x: u8 }
+//@trusted ffi::AuthorizationHandler: C function pointers, opaque
